@@ -434,6 +434,9 @@ func divisionZero() {
 				if t < prev {
 					report("timeat:decreasing:division-zero", 0, evs, q, fmt.Sprintf("TimeAt(%d)=%d below %d", q, t, prev))
 				}
+				if t < 0 || (q == 0 && t != 0) || (q > 0 && len(evs) == 0 && t == 0) {
+					report("timeat:sign:division-zero", 0, evs, q, fmt.Sprintf("TimeAt(%d)=%d: times are not negative, zero at tick 0 and not zero later", q, t))
+				}
 				prev = t
 			}
 			smf.ReadTracksFrom(bytes.NewReader(data)).Do(func(te smf.TrackEvent) {})
